@@ -40,7 +40,10 @@ func init() {
 	props["C08"] = &propDef{gen: genC08, alsoReuse: true, rule: "dictionary iterators with nil/non-empty [start,end) bounds and any/prefix automata, Contains and PostingsList on built and merged (1-hit mixed) segments, unknown fields and terms; non-trivial = merged segment with >1 document"}
 	props["C11"] = &propDef{gen: genC11, extra: legC11, rule: "CRC-32 of all bytes but the last four, footer fields vs loaded segment, returned byte count, byte-identical re-persist; built, merged, loaded (mem, file); plus: WriteTo of the same segment object into a healthy writer after a WriteTo that failed part-way reproduces the reference file"}
 	props["C13"] = &propDef{gen: genC13, reuse: true, rule: "lookup sequences over three segments (general and 1-hit encodings) where each lookup receives an earlier PostingsList / PostingsIterator as prealloc (none / most recent / random earlier) and dictionaries and doc-value readers are kept across lookups; transcript vs Lean Spec (= fresh objects)"}
-	props["C16"] = &propDef{gen: genC16, rule: "CollectionStats of every known, unknown and empty field name on built, merged, loaded segments with Length = Σ freq; vs Lean Spec.stats; non-trivial = merged with survivors"}
+	props["C16"] = &propDef{gen: genC16, extra: func(e *Engine) []Violation {
+		// statistics of the reference-written golden files, read by the current code
+		return goldenPass(e, func(q Query) bool { return q[0] == "stats" || q[0] == "count" })
+	}, rule: "CollectionStats of every known, unknown and empty field name on built, merged, loaded segments with Length = Σ freq; vs Lean Spec.stats; non-trivial = merged with survivors"}
 	props["C17"] = &propDef{gen: genC17, rule: "2-4 leaves with drops: flat merge vs every prefix grouping (drops in the inner merge, or translated through its document numbers), suffix grouping, single-segment identity; real-vs-real on the full read script incl. statistics, and each vs Lean Spec; non-trivial = >=3 leaves with survivors"}
 	props["C18"] = &propDef{gen: genC18, alsoReuse: true, rule: "DocsMatchingTerms on lists of 0-12 (field, term) pairs mixing known, unknown and empty field names, repeats and field switches; built, loaded, merged; non-trivial = list contains an unknown/empty field and the segment has documents"}
 }
